@@ -179,9 +179,23 @@ DECK = [(-0.015, 0.0075, 0.0), (-0.015, -0.0075, 0.0), (0.015, 0.0075, 0.0), (0.
 DECK_DIAG = math.sqrt(0.03 ** 2 + 0.015 ** 2)
 
 
-def gen_diag_case(rng):
-    """True geometry (base stations looking roughly at the flight volume, Crazyflie poses with mild tilt), exact rays
-    to the four deck sensors; the system handed to scale_diagonals is the truth shrunk/grown by 1/s."""
+def _tilted_rot(rng, min_tilt_deg, max_tilt_deg):
+    """Crazyflie attitude: any yaw, then roll/pitch: the deck normal is `tilt` degrees off the vertical."""
+    yaw = rng.uniform(-math.pi, math.pi)
+    tilt = math.radians(rng.uniform(min_tilt_deg, max_tilt_deg))
+    az = rng.uniform(-math.pi, math.pi)
+    Rz = [[math.cos(yaw), -math.sin(yaw), 0.0], [math.sin(yaw), math.cos(yaw), 0.0], [0.0, 0.0, 1.0]]
+    return _mm(Rz, _rodrigues([tilt * math.cos(az), tilt * math.sin(az), 0.0])), math.degrees(tilt)
+
+
+LIB_DIAGONAL = 'LhDeck4SensorPositions.diagonal_distance'
+
+
+def gen_diag_case(rng, lib_constant=False):
+    """True geometry (base stations looking roughly at the flight volume, Crazyflie samples with any yaw and roll/pitch
+    up to 30 degrees; the FIRST sample of every case is tilted by 10..30 degrees, about a fifth of the others lie flat),
+    exact rays to the four deck sensors; the system handed to scale_diagonals is the truth shrunk/grown by 1/s.
+    lib_constant: the expected diagonal is the library's own constant instead of the physical sqrt(30^2+15^2) mm."""
     nb, nc = rng.randint(1, 3), rng.randint(1, 4)
     s = rng.uniform(0.3, 3.0)
     bs = []
@@ -202,9 +216,11 @@ def gen_diag_case(rng):
         zz = [x[1] * y[2] - x[2] * y[1], x[2] * y[0] - x[0] * y[2], x[0] * y[1] - x[1] * y[0]]
         R = [[x[0], y[0], zz[0]], [x[1], y[1], zz[1]], [x[2], y[2], zz[2]]]
         bs.append([bid, R, pos])
-    cf, samples = [], []
-    for _ in range(nc):
-        Rc = _rand_rot(rng, math.radians(25))
+    cf, samples, tilts = [], [], []
+    for ci in range(nc):
+        Rc, tilt = _tilted_rot(rng, 10.0, 30.0) if ci == 0 else (_tilted_rot(rng, 0.0, 0.0) if rng.random() < 0.2
+                                                                  else _tilted_rot(rng, 0.0, 30.0))
+        tilts.append(tilt)
         tc = [rng.uniform(-1, 1), rng.uniform(-1, 1), rng.uniform(0.0, 1.0)]
         cf.append([Rc, tc])
         seen = {}
@@ -218,7 +234,8 @@ def gen_diag_case(rng):
             seen[bid] = rays
         samples.append(seen)
     inv = 1.0 / s
-    return {'kind': 'scale_diag', 'factor': s, 'expected_diagonal': DECK_DIAG,
+    return {'kind': 'scale_diag', 'factor': s, 'expected_diagonal': LIB_DIAGONAL if lib_constant else DECK_DIAG,
+            'tilt_deg': tilts,
             'bs': [[b, R, [v * inv for v in t]] for b, R, t in bs],
             'cf': [[R, [v * inv for v in t]] for R, t in cf],
             'samples': [{str(k): v for k, v in smp.items()} for smp in samples],
@@ -436,10 +453,22 @@ def _diag_objects(case):
 def check_scale_diag(case):
     np = _np()
     S = _cf()[1]
+    expected = case['expected_diagonal']
+    lib = expected == LIB_DIAGONAL
+    wrong = 'scale_factor_wrong'
     try:
+        if lib:
+            # the library's own statement of the deck geometry: the sensor table and the diagonal constant
+            from cflib.localization.lighthouse_types import LhDeck4SensorPositions as D
+            pos = np.array(D.positions, dtype=float)
+            if pos.shape != (4, 3) or np.abs(pos - np.array(DECK)).max() > 1e-12:
+                return {'class': 'deck_sensor_table_wrong', 'case': case, 'expected': [list(p) for p in DECK],
+                        'observed': pos.tolist()}
+            expected = float(D.diagonal_distance)
+            wrong = 'deck_diagonal_constant_wrong'
         bs, cf, samples = _diag_objects(case)
         before = _snap([bs, cf])
-        bs2, cf2, f = S.scale_diagonals(bs, cf, samples, case['expected_diagonal'])
+        bs2, cf2, f = S.scale_diagonals(bs, cf, samples, expected)
         same = _snap([bs, cf]) == before
     except Exception as e:  # noqa
         return {'class': 'scale_raises', 'case': case, 'expected': 'scaled system', 'observed': repr(e)}
@@ -448,7 +477,10 @@ def check_scale_diag(case):
     f = float(f)
     # rays are float32 (LighthouseBsVector.cart): relative error of the factor observed < 2e-5
     if not abs(f - case['factor']) <= 2e-3 * case['factor']:
-        return {'class': 'scale_factor_wrong', 'case': case, 'expected': case['factor'], 'observed': f}
+        return {'class': wrong, 'case': case, 'expected': case['factor'], 'observed': f,
+                'detail': 'scale_diagonals(..., expected_diagonal=%r): factor %.6f, the factor that makes the 30 mm x 15 mm deck '
+                          'diagonal correct is %.6f (sample tilts %s deg)' % (
+                              expected, f, case['factor'], [round(t, 1) for t in case.get('tilt_deg', [])])}
     worst = 0.0
     for (bid, R, t) in case['truth_bs']:
         worst = max(worst, np.abs(bs2[bid].translation - np.array(t)).max() / (1 + np.abs(np.array(t)).max()))
@@ -461,8 +493,8 @@ def check_scale_diag(case):
                 'observed': float(worst)}
     # the recomputed mean diagonal in the scaled system is the expected one
     est = float(S._calculate_mean_diagonal(bs2, cf2, samples))
-    if not abs(est - case['expected_diagonal']) <= 1e-9:
-        return {'class': 'scale_factor_wrong', 'case': case, 'expected': case['expected_diagonal'], 'observed': est}
+    if not abs(est - expected) <= 1e-9 or not abs(est - DECK_DIAG) <= 2e-3 * DECK_DIAG:
+        return {'class': wrong, 'case': case, 'expected': [expected, DECK_DIAG], 'observed': est}
     return None
 
 
@@ -512,8 +544,8 @@ def oracle(ctx, deep=False):
         cases.append(gen_align_case(ctx.rng, wide=True))
     for _ in range(ctx.scale(300, 3000)):
         cases.append(gen_scale_case(ctx.rng))
-    for _ in range(ctx.scale(150, 1500)):
-        cases.append(gen_diag_case(ctx.rng))
+    for i in range(ctx.scale(150, 1500)):
+        cases.append(gen_diag_case(ctx.rng, lib_constant=(i % 5 == 4)))
     results = _pmap(_check, cases)
     fails = [f for f in results if f]
     # keep the report small: at most 3 failures per class, smallest angle first for align cases
@@ -704,8 +736,10 @@ def tie(ctx):
             [float(f) ** 2], c)
     # ---- calc_intersection_point / calc_intersection_distance / scale_diagonals factor
     n_diag = 0
+    tilts = []
     for i in range(n):
         c = gen_diag_case(rng)
+        tilts.extend(c['tilt_deg'])
         bs, cf, samples = _diag_objects(c)
         d2_terms, d_impl = [], []
         for cfp, cfl, smp in zip(cf, c['cf'], samples):
@@ -747,6 +781,7 @@ def tie(ctx):
             break
     for i in range(ctx.scale(60, 600)):
         c = gen_diag_case(rng)
+        tilts.extend(c['tilt_deg'])
         bs, cf, samples = _diag_objects(c)
         diags = []
         for cfp, smp in zip(cf, samples):
@@ -771,7 +806,11 @@ def tie(ctx):
                 'sqrt/sin/cos wrappers (from_rotvec, scale factors) compared with the model formulas in Python' % (
                     sorted('%s%s' % ('x' if a else '-', 'z' if b else '-') for a, b in flips_seen)),
         'samples': [{'what': meta[i][0], 'term': terms[i][:160], 'impl': expect[i][:4]} for i in (0, len(terms) // 2, len(terms) - 1)],
-        'distribution': dict(dist, wrappers=n_wr, deflip_signs={'%s%s' % ('x' if a else '-', 'z' if b else '-'): v
+        'distribution': dict(dist, wrappers=n_wr,
+                             cf_sample_tilt_deg={'n': len(tilts), 'min': round(min(tilts), 2), 'max': round(max(tilts), 2),
+                                                 'n_tilted_10_to_30': sum(1 for t in tilts if t >= 10.0),
+                                                 'n_flat': sum(1 for t in tilts if t == 0.0)},
+                             deflip_signs={'%s%s' % ('x' if a else '-', 'z' if b else '-'): v
                                                                  for (a, b), v in flips_seen.items()}),
         'exhaustive': False,
         'disagreements': dis,
@@ -908,6 +947,12 @@ class Tr:
                 return '(%s %s)' % (['vx', 'vy', 'vz'][_const(sl)], v), 'S'
             if t == 'V' and isinstance(sl, ast.Slice) and sl.step is None and _const(sl.lower) == 1 and _const(sl.upper) == 3:
                 return '[vy %s; vz %s]' % (v, v), 'LS'
+            if t == 'M' and _const(sl) in (0, 1, 2):                      # m[i]: i-th ROW
+                return '(%s %s)' % (['r1', 'r2', 'r3'][_const(sl)], v), 'V'
+            if t == 'M' and isinstance(sl, ast.Tuple) and len(sl.elts) == 2 and isinstance(sl.elts[0], ast.Slice) \
+                    and sl.elts[0].lower is None and sl.elts[0].upper is None and sl.elts[0].step is None \
+                    and _const(sl.elts[1]) in (0, 1, 2):                   # m[:, j]: j-th COLUMN
+                return '(%s %s)' % (['col1', 'col2', 'col3'][_const(sl.elts[1])], v), 'V'
             _fail(n, 'subscript not in the fragment')
         if isinstance(n, ast.Lambda):
             _fail(n, 'lambda outside map()')
@@ -1176,6 +1221,60 @@ def _loop_map(tr, stmts, i, coll_var):
     return res, '(map (fun kv => (fst kv, %s)) %s)' % (v, d), used
 
 
+def _rexpr(n, names):
+    """Scalar real-number expression of the class body of LhDeck4SensorPositions."""
+    if isinstance(n, ast.Name) and n.id in names:
+        return names[n.id]
+    if isinstance(n, ast.Constant) and isinstance(n.value, (int, float)) and not isinstance(n.value, bool):
+        fr = Fraction(repr(n.value))
+        return '(%d / %d)' % (fr.numerator, fr.denominator) if fr.denominator != 1 else '%d' % fr.numerator
+    if isinstance(n, ast.UnaryOp) and isinstance(n.op, ast.USub):
+        return '(- %s)' % _rexpr(n.operand, names)
+    if isinstance(n, ast.BinOp):
+        if isinstance(n.op, ast.Pow) and _const(n.right) == 2:
+            a = _rexpr(n.left, names)
+            return '(%s * %s)' % (a, a)
+        ops = {ast.Add: '+', ast.Sub: '-', ast.Mult: '*', ast.Div: '/'}
+        if type(n.op) in ops:
+            return '(%s %s %s)' % (_rexpr(n.left, names), ops[type(n.op)], _rexpr(n.right, names))
+    if isinstance(n, ast.Call) and _is_np(n.func, 'sqrt') and len(n.args) == 1 and not n.keywords:
+        return '(sqrt %s)' % _rexpr(n.args[0], names)
+    _fail(n, 'deck geometry expression not in the fragment')
+
+
+def _translate_deck(tree):
+    """LhDeck4SensorPositions: the two sensor distances, the 4x3 sensor table and diagonal_distance."""
+    cls = [n for n in tree.body if isinstance(n, ast.ClassDef) and n.name == 'LhDeck4SensorPositions']
+    if len(cls) != 1:
+        raise TranslationError('class LhDeck4SensorPositions not found')
+    names, out, seen = {}, [], set()
+    for st in cls[0].body:
+        if isinstance(st, ast.Expr) and isinstance(st.value, ast.Constant) and isinstance(st.value.value, str):
+            continue
+        if not (isinstance(st, ast.Assign) and len(st.targets) == 1 and isinstance(st.targets[0], ast.Name)):
+            _fail(st, 'LhDeck4SensorPositions body')
+        nm = st.targets[0].id
+        if nm == 'positions':
+            v = st.value
+            if not (isinstance(v, ast.Call) and _is_np(v.func, 'array') and len(v.args) == 1 and not v.keywords
+                    and isinstance(v.args[0], (ast.List, ast.Tuple)) and len(v.args[0].elts) == 4
+                    and all(isinstance(r, (ast.List, ast.Tuple)) and len(r.elts) == 3 for r in v.args[0].elts)):
+                _fail(st, 'sensor table shape')
+            rows = ['(V3 %s %s %s)' % tuple(_rexpr(e, names) for e in r.elts) for r in v.args[0].elts]
+            out.append('Definition gen_deck_positions : list (vec R) :=\n  [%s].\n' % ';\n   '.join(rows))
+        elif nm == 'diagonal_distance':
+            out.append('Definition gen_deck_diagonal : R := %s.\n' % _rexpr(st.value, names))
+        elif nm.startswith('_sensor_distance_'):
+            out.append('Definition gen%s : R := %s.\n' % (nm, _rexpr(st.value, names)))
+            names[nm] = 'gen' + nm
+        else:
+            _fail(st, 'unexpected attribute of LhDeck4SensorPositions')
+        seen.add(nm)
+    if not {'positions', 'diagonal_distance'} <= seen:
+        raise TranslationError('LhDeck4SensorPositions lacks positions / diagonal_distance')
+    return 'Open Scope R_scope.\n' + '\n'.join(out)
+
+
 def translate(repo):
     """Returns (Gen_Code.v text, info).  Raises TranslationError on any unrecognised shape."""
     loc = os.path.join(repo, 'cflib', 'localization')
@@ -1327,7 +1426,8 @@ def translate(repo):
     text = ('(* GENERATED on every run by harness/props/c16.py (translate) from cflib/localization/lighthouse_types.py,\n'
             '   lighthouse_system_aligner.py and lighthouse_system_scaler.py.  Do not edit. *)\n'
             'From Coq Require Import ZArith List Reals.\nFrom CF Require Import C16.Model.\nImport ListNotations.\n\n'
-            'Section Gen.\nContext {F : Type}.\n\n' + '\n'.join(gen) + '\nEnd Gen.\n\n' + '\n'.join(genr))
+            'Section Gen.\nContext {F : Type}.\n\n' + '\n'.join(gen) + '\nEnd Gen.\n\n' + '\n'.join(genr)
+            + '\n' + _translate_deck(trees['lighthouse_types']))
     return text, info
 
 
